@@ -40,9 +40,19 @@ CLAIMS = {
         'each was feasible at that moment, that they ran in registration order, exactly once, with the manager and a copy of the request, that '
         'skipped waiters did not fit when scanned, and that no feasible waiter is left when the clock advances.',
    technique='TLA+ closed spec model-checked with TLC + TLC trace validation of real ResourceManager/Environment runs'),
+ 'C12': dict(engine='maint', ref='DESIGN.md 6 (C12), 3.3',
+   text='TLC model-checks the closed maintainer specification MaintMC (every request stream over three scripted targets with needed '
+        'capacities 0..3, durations including 0 and durations that change between request and start, duplicates, bursts in one instant, '
+        'requests issued from inside start/end hooks; maintainer capacities 1, 2, 3 and unbounded; every tie-break between simultaneous '
+        'events) against capacity, one-order-per-target, exact duration, cost-only-at-start and no-startable-order-left-when-time-advances; '
+        'the behaviours TLC generates (under several tie-break seeds) and longer random streams are executed on the real Maintainer bound '
+        'to a real System, and TLC validates every recorded request and dispatched event against the relations of MaintTrace.tla '
+        '(return value, greedy in-order scan, hooks once, records, cost, exact duration) on the logged pre-state.',
+   technique='TLA+ closed spec model-checked with TLC + TLC trace validation of real Maintainer runs'),
 }
 
 ENGINES = {
+ 'maint': dict(name='maint', path='harness/p_maint.py', kind_free_text='Maint.tla / MaintMC.tla / MaintTrace.tla; generic component pipeline harness/component.py; driver harness/maint_driver.py'),
  'pools': dict(name='pools', path='harness/p_pools.py', kind_free_text='Pools.tla / PoolsMC.tla (closed, exhaustive + simulate) / PoolsTrace.tla (trace validation); driver harness/pools_driver.py'),
  'kernel': dict(name='kernel', path='harness/p_kernel.py', kind_free_text='Kernel.tla / KernelMC.tla (closed, exhaustive + simulate) / KernelTrace.tla (trace validation); driver harness/kernel_driver.py'),
 }
